@@ -120,6 +120,12 @@ struct RawRecorder
     }
     static void cbLoopStart(void *ud) { RawRecorder *r = (RawRecorder *)ud; ++r->loopStarts; r->loopStartCalls.push_back(r->curCall); }
     static void cbLoopEnd(void *ud) { RawRecorder *r = (RawRecorder *)ud; ++r->loopEnds; r->loopEndCalls.push_back(r->curCall); }
+    // the same two hooks registered with two different user-data objects: each callback must get back its own
+    struct HookUd { RawRecorder *rec; int which; };
+    HookUd udStart, udEnd; uint64_t wrongUserData;
+    static void cbLoopStart2(void *ud) { HookUd *h = (HookUd *)ud; if(h->which != 1) ++h->rec->wrongUserData; cbLoopStart(h->rec); }
+    static void cbLoopEnd2(void *ud) { HookUd *h = (HookUd *)ud; if(h->which != 2) ++h->rec->wrongUserData; cbLoopEnd(h->rec); }
+    void initHookUd() { udStart.rec = this; udStart.which = 1; udEnd.rec = this; udEnd.which = 2; wrongUserData = 0; }
     // the sequencer's own "song begin" pseudo event (0xFF, subtype 0x101 truncated to 0x01, no data) is
     // not a file event: generators never emit empty text metas, so it is recognisable
     static bool isSongBeginArtifact(const RawEvt &e) { return e.type == 0xFF && e.subtype == 0x01 && e.data.empty(); }
